@@ -354,14 +354,19 @@ def rule_file_checkers(ctx):
         R.missing('F1', 'OpenRead::rewind', 'not found', props=P)
     # F6: the content hash covers the whole file
     OR = 'pie::resource::file::OpenRead'
-    for b in F.bodies.values():
-        if b.crate != 'pie' or b.is_test_code() or b.kind != 'AssocFn':
+    file_hashers = set()  # functions that hash the content of a reader (whatever their name)
+    FR = getattr(F, 'raw_facts', None)  # normalised view: helpers inlined into all their callers are examined as the functions they are
+    all_bodies = list(F.bodies.values()) + ([b_ for i_, b_ in FR.bodies.items() if i_ not in F.bodies] if FR is not None else [])
+    for b in all_bodies:
+        if b.crate != 'pie' or b.is_test_code() or b.kind not in ('AssocFn', 'Fn'):
             continue
-        news = b.find_calls(lambda c: c.qname == 'sha2::Digest::new')
-        readers = [i for i in range(1, b.argc + 1) if 'BufReader' in b.local_ty(i) or 'std::fs::File' in b.local_ty(i) or 'Read' in b.local_ty(i)
+        # (a hasher inlined into its caller in the normalised view is examined as the function it still is, not again inside the caller)
+        news = b.find_calls(lambda c: c.qname == 'sha2::Digest::new' and not b.blocks[c.bb].get('from_body'))
+        readers = [i for i in range(1, b.argc + 1) if 'BufReader' in b.local_ty(i) or 'std::fs::File' in b.local_ty(i) or 'Read' in b.local_ty(i).replace('OpenRead', '')
                    or b.local_ty(i).lstrip('&').replace('mut ', '', 1).strip() in b.generics]  # `fn hash_file<R: Read>(r: &mut R)`
         if not news or not readers:
             continue
+        file_hashers.add(b.id)
         cps = b.find_calls(lambda c: c.qname == 'std::io::copy')
         good = len(cps) == 1 and all(o.kind == 'arg' and o.key in readers for o in b.orig_operand(cps[0].args[0])) and ctx.base_call_bbs(b.orig_operand(cps[0].args[1])) == {news[0].bb}
         if good:
@@ -450,7 +455,20 @@ def rule_file_checkers(ctx):
         R.ob('F7-openread-new', nb.path, good, 'a path is opened as NonExistent iff it has no metadata, as File iff it is a regular file (that very path is opened), as Directory otherwise' if good else why,
              ctx.where(nb), props=P)
     # F8: the content observer dispatches on the kind of path
-    hb = F.body_by_path('pie::resource::file::hash_checker::HashChecker::hash')
+    # by role, not by name: the listing hasher is the function that reads a directory and returns a digest, the dispatcher the function that
+    # takes the opened reader and calls both hashers
+    dir_hashers = {b_.id for b_ in all_bodies if b_.crate == 'pie' and not b_.is_test_code() and b_.kind in ('AssocFn', 'Fn') and '[u8; 32]' in b_.local_ty(0)
+                   and b_.find_calls(lambda c: c.qname == 'std::fs::read_dir')}
+
+    def hrole(c):
+        cb_ = c.body.facts.callee_body(c)
+        if cb_ is None:
+            return None
+        return 'hash_file' if cb_.id in file_hashers else 'hash_directory' if cb_.id in dir_hashers else None
+    hbs = [b_ for b_ in all_bodies if b_.crate == 'pie' and not b_.is_test_code() and b_.kind in ('AssocFn', 'Fn')
+           and any('OpenRead' in b_.local_ty(i) for i in range(1, b_.argc + 1))
+           and {hrole(c) for c in b_.calls.values()} >= {'hash_file', 'hash_directory'}]
+    hb = hbs[0] if len(hbs) == 1 else F.body_by_path('pie::resource::file::hash_checker::HashChecker::hash')
     if hb is not None:
         res = {}
         for v in table.values():
@@ -475,11 +493,15 @@ def rule_file_checkers(ctx):
                                     return (v in helper_pos[cb_.id]) != pos
                 return False
             seen = hb.reach([0], avoid=ctx.both(ctx.infeasible(hb), av))
-            res[v] = sorted({hb.calls[x].name for x in seen if not isinstance(x, tuple) and x in hb.calls and hb.calls[x].name.startswith('hash_')})
+            res[v] = sorted({hrole(hb.calls[x]) or hb.calls[x].name for x in seen if not isinstance(x, tuple) and x in hb.calls and (hrole(hb.calls[x]) or hb.calls[x].name.startswith('hash_'))})
         good = res == {'File': ['hash_file'], 'Directory': ['hash_directory'], 'NonExistent': []}
         R.ob('F8-dispatch', hb.path, good, 'files are hashed by content, directories by listing, an absent path has no hash' if good else 'hash dispatch per kind of path: %s' % res, ctx.where(hb), props=P)
-        for c in hb.find_calls(lambda c: c.name == 'hash_directory'):
-            good = all(o.kind == 'arg' and o.key == 2 for o in hb.orig_operand(c.args[1]))
+        for c in hb.find_calls(lambda c: hrole(c) == 'hash_directory' or c.name == 'hash_directory'):
+            cb_ = c.body.facts.callee_body(c)
+            pi = [i for i in range(1, (cb_.argc if cb_ is not None else 0) + 1) if 'Path' in cb_.local_ty(i)]
+            pa = c.args[pi[0] - 1] if len(pi) == 1 and pi[0] - 1 < len(c.args) else c.args[-1]
+            po = hb.orig_operand(pa)
+            good = bool(po) and all(o.kind == 'arg' and 'Path' in hb.local_ty(o.key) for o in po)
             R.ob('F8-dir-path', hb.path, good, 'the listing hashed is that of the checked path' if good else 'another directory is listed', ctx.where(hb, c.bb), props=P)
     # F5 digest framing
     n = 0
